@@ -224,8 +224,7 @@ def run(tier, seed):
     pairs = [(a, b) for a in names for b in names]
     rng = rng_for(seed, PID, "matrix")
     if tier == "quick":
-        rng.shuffle(pairs)
-        pairs = pairs[:3200]
+        rng.shuffle(pairs)          # (the whole 86 x 86 matrix in both tiers: 22 000 queries are cheap)
         n = 16000
     else:
         n = 250000
@@ -239,7 +238,7 @@ def run(tier, seed):
     return finish(PID, tier, seed, "exploration", acc, RULE, t0,
                   assumptions=["exponent vectors and unit ids come from the frozen reference table (monitors/core/units_ref.py)",
                                "per-unit scales are measured through the tool's own `1 U to <base units>`; their validity is judged by C05"],
-                  extra={"unit_matrix": "all %d x %d ordered pairs of documented non-offset units" % (len(names), len(names)) if tier == "thorough" else "%d sampled ordered pairs" % len(pairs)},
+                  extra={"unit_matrix": "all %d x %d ordered pairs of documented non-offset units" % (len(names), len(names)) if True else ""},
                   min_eval=1000)
 
 def replay(path):
